@@ -62,8 +62,12 @@ func CropFloat3Attribute(m modeling.Mesh, attr string, boundingBox geometry.AABB
 		v1[attr] = make([]float64, 0)
 	}
 
+	// Walk the points through the index array, so that vertices no point
+	// refers to are not resurrected and points sharing a vertex are all kept
+	indices := m.Indices()
 	decidingAttribute := m.Float3Attribute(attr)
-	for i := 0; i < decidingAttribute.Len(); i++ {
+	for pointIndex := 0; pointIndex < indices.Len(); pointIndex++ {
+		i := indices.At(pointIndex)
 		if !boundingBox.Contains(decidingAttribute.At(i)) {
 			continue
 		}
